@@ -87,6 +87,14 @@ def oracle(fal, S, A, R, rep):
                 first = [i for i in range(len(rw)) if rw[i] == best][0]
                 if want != first or not np.array_equal(a, space[first]):
                     f("get_action", f"get_action({opt}) is not the first optimum of the predicted rewards")
+        # no action space supplied: the documented default is the set of learned action centres
+        dflt = np.array(fus.get_channel_centers(1))
+        for s in Sx[:2]:
+            for opt in ("max", "min"):
+                a0 = fal.get_action(s, optimality=opt)
+                a1 = fal.get_action(s, action_space=dflt.copy(), optimality=opt)
+                if not np.array_equal(np.asarray(a0), np.asarray(a1)):
+                    f("get_action", f"get_action({opt}) without an action space returns {np.asarray(a0).tolist()}, with the learned action centres supplied {np.asarray(a1).tolist()}")
     except Exception as e:
         f("raises", f"{type(e).__name__}: {str(e)[:80]}")
     return fails
@@ -100,6 +108,7 @@ def main():
     rng = C.make_rng(seed, "C16")
     n = 200 if tier == "quick" else 2000
     fstrs, fsumm, sstrs, ssumm, fails = [], [], [], [], []
+    s2strs, s2summ = [], []
     nontriv, hashes = 0, set()
     for _ in range(n):
         f, S, A, R = gen_falcon(rng)
@@ -169,15 +178,56 @@ def main():
                                      "falcon": {k: str(vv) for k, vv in f.items()}, "episode_rows": idx, "episode_reward_rows": ridx}))
         except Exception as e:
             fails.append({"signature": "TD_FALCON/raises", "text": f"{type(e).__name__}: {str(e)[:80]}", "replay": {"alpha": str(al), "lambda": str(la)}})
+        # (iii) whole calculate_SARSA calls with episodes of EVERY length >= 1 (one-step episodes with and without
+        # single_sample_reward), untrained and after earlier episodes; the targets must be valid reward rows and the
+        # episode must train
+        td2 = make_falcon(f, td=(al, la))
+        try:
+            for ep in range(rng.choice([1, 2, 3])):
+                ln = rng.choice([1, 1, 1, 2, 3])
+                idx = [rng.randrange(len(S)) for _ in range(ln)]
+                Se, Ae, Re = arr([S[i] for i in idx]), arr([A[i] for i in idx]), arr([R[i] for i in idx])
+                single = rng.choice([None, None, 0.0, 0.25, 1.0, 0.625]) if ln == 1 else None
+                trained = hasattr(td2.fusion_art.modules[0], "W")
+                Qv = td2.get_rewards(Se, Ae) if (trained and ln > 1) else np.zeros((ln, 1))
+                Ql = [float(np.asarray(x).ravel()[0]) for x in Qv]
+                sf, af, rf = td2.calculate_SARSA(Se, Ae, Re, single_sample_reward=single)
+                rfl = [[float(x) for x in row] for row in np.asarray(rf)]
+                rp = {"td_alpha": str(al), "td_lambda": str(la), "episode": ep, "episode_rows": idx, "single_sample_reward": single,
+                      "rewards": Re.tolist(), "targets": rfl, "falcon": {k: str(vv) for k, vv in f.items() if k != "X"}}
+                if len(sf) != len(rfl) or len(af) != len(rfl) or len(rfl) != max(1, ln - 1):
+                    fails.append({"signature": "TD_FALCON/targets-valid", "text": f"episode of {ln} step(s): {len(sf)} states, {len(af)} actions, {len(rfl)} targets", "replay": rp})
+                if any(not (0.0 <= x <= 1.0) for row in rfl for x in row) or any(len(row) != 2 or abs(sum(row) - 1.0) > 1e-12 for row in rfl):
+                    fails.append({"signature": "TD_FALCON/targets-valid", "text": f"episode of {ln} step(s): a target is not a complement-coded value in [0,1]", "replay": rp})
+                if ln == 1:
+                    want = [[single, 1.0 - single]] if single is not None else Re.tolist()
+                    if rfl != want:
+                        fails.append({"signature": "TD_FALCON/sarsa-target", "text": f"one-step episode: target {rfl}, expected {want} (the reward alone)", "replay": rp})
+                s2strs.append(f"(mkScall2 {q(al)} {q(la)} {qlist(Ql)} {qmat([[float(x) for x in r] for r in Re])} "
+                              + ("None" if single is None else f"(Some {q(Fraction(single))})") + f" {len(sf)}%nat {qmat(rfl)})")
+                s2summ.append(rp)
+                n_before = td2.fusion_art.n_clusters if trained else 0
+                td2.partial_fit(Se, Ae, Re, single_sample_reward=single)
+                if len(td2.fusion_art.labels_) < len(rfl) or td2.fusion_art.n_clusters < max(1, n_before):
+                    fails.append({"signature": "TD_FALCON/raises", "text": "the episode did not train", "replay": rp})
+                fails.extend(oracle(td2, [S[i] for i in idx], [A[i] for i in idx], None,
+                                    {"estimator": "TD_FALCON", "td_alpha": str(al), "td_lambda": str(la), "episode": ep, "single_sample_reward": single,
+                                     "falcon": {k: str(vv) for k, vv in f.items()}, "episode_rows": idx}))
+        except Exception as e:
+            fails.append({"signature": "TD_FALCON/raises", "text": f"{type(e).__name__}: {str(e)[:80]}",
+                          "replay": {"td_alpha": str(al), "td_lambda": str(la), "one-step episodes": True, "falcon": {k: str(vv) for k, vv in f.items()}}})
     codes, bad = flow.coq_corr("C16", "RunFusion", fstrs, shard=60, check_fn="fcheck", extra_imports="From ARTcorr Require Import RunBase.\n")
     scodes, sbad = flow.coq_corr("C16s", "RunFalcon", sstrs, shard=200, check_fn="sacheck")
-    for b in bad + sbad:
+    s2codes, s2bad = flow.coq_corr("C16t", "RunFalcon", s2strs, shard=200, check_fn="sacheck2")
+    scodes, ssumm = scodes + s2codes, ssumm + s2summ
+    for b in bad + sbad + s2bad:
         v.notes.append("coq shard failed: " + b[-600:])
     flow.decide(v, "C16", gate_ok, ob, list(zip(codes, fsumm)) + list(zip(scodes, ssumm)), fails, None)
     v.cov.update({
-        "evaluations": len(fstrs) + len(sstrs), "distinct_nontrivial": nontriv + len(set(C.case_hash(s) for s in ssumm)),
+        "evaluations": len(fstrs) + len(sstrs) + len(s2strs), "whole_calculate_SARSA_calls": len(s2strs),
+        "one_step_episodes": sum(1 for r in s2summ if len(r["rewards"]) == 1), "distinct_nontrivial": nontriv + len(set(C.case_hash(s) for s in ssumm)),
         "rule": "grid trajectories in the unit cube (1-2 state dims, 1 action dim, 1 reward dim, complement-coded), FALCON fit / two partial_fit episodes; "
-                "TD-FALCON with td_alpha in {0,1/4,1/2,1}, td_lambda in {0,1/2,1}, 1-3 episodes of 2-6 steps (untrained and trained); "
+                "TD-FALCON with td_alpha in {0,1/4,1/2,1}, td_lambda in {0,1/2,1}, 1-4 episodes of 2-6 steps (untrained and trained), plus 1-3 episodes of 1-3 steps (one-step episodes with and without single_sample_reward) against calc_sarsa; "
                 "non-trivial = distinct FALCON model with >= 2 categories or distinct SARSA call",
         "traces_validated_against_impl": sum(1 for x in codes + scodes if x == 0),
         "samples": fsumm[:1] + ssumm[:1]})
